@@ -11,4 +11,4 @@ func NewReconcilerForVerif(topo topo.Store, conns gnmi.ConnManager) *Reconciler 
 	return &Reconciler{conns: conns, topo: topo}
 }
 func NewConnWatcherForVerif(conns gnmi.ConnManager) *ConnWatcher { return &ConnWatcher{conns: conns} }
-func NewTopoWatcherForVerif(topo topo.Store) *TopoWatcher       { return &TopoWatcher{topo: topo} }
+func NewTopoWatcherForVerif(topo topo.Store) *TopoWatcher        { return &TopoWatcher{topo: topo} }
